@@ -317,14 +317,14 @@ class Check:
             out = out + [tag] + more
         return out[:len(lines)]
 
-    def run_lines_sharded(self, exe, lines, shards=12, timeout=3000, env=None, args=()):
+    def run_lines_sharded(self, exe, lines, shards=12, timeout=3000, env=None, args=(), case_timeout=None):
         """same as run_lines, cases spread over several processes (order preserved)"""
         from concurrent.futures import ThreadPoolExecutor
         if len(lines) < 2 * shards:
-            return self.run_lines(exe, lines, timeout, env, args)
+            return self.run_lines(exe, lines, timeout, env, args, case_timeout)
         idx = [list(range(k, len(lines), shards)) for k in range(shards)]
         with ThreadPoolExecutor(max_workers=shards) as ex:
-            outs = list(ex.map(lambda ix: self.run_lines(exe, [lines[i] for i in ix], timeout, env, args), idx))
+            outs = list(ex.map(lambda ix: self.run_lines(exe, [lines[i] for i in ix], timeout, env, args, case_timeout), idx))
         res = [None] * len(lines)
         for ix, o in zip(idx, outs):
             for i, r in zip(ix, o):
